@@ -76,6 +76,14 @@ def threaded(ctx, options: Set[str], why: Dict[str, str]):
     for fi in repo.all_functions():
         cps, ckw = _params(fi)
         have = set(cps) | set(ckw)
+        # a local of the same name, bound once in the function, counts as holding the option (main.client builds the plugin manager)
+        bound: Dict[str, int] = {}
+        for st in ast.walk(fi.node):
+            if isinstance(st, ast.Assign):
+                for t in st.targets:
+                    if isinstance(t, ast.Name):
+                        bound[t.id] = bound.get(t.id, 0) + 1
+        have |= {n_ for n_, k_ in bound.items() if k_ >= 1 and n_ in options}
         sat = _self_attrs(repo, fi.cls) if fi.cls is not None and cps is not None and fi.node.args.args and fi.node.args.args[0].arg == "self" else {}
         for c, targets in cg.callees(fi):
             for t in targets:
